@@ -20,13 +20,16 @@ import A2Verif.Model.VolSpec
 
 The model is a transcription of a2kit's ProDOS module, tied byte for byte to the real code after every operation of
 every generated history (`Drv/FsProdos.lean`, `harness/src/fam/fs_prodos.rs`).  This file collects the theorems about
-it (details: `design/FsProdos.md`).  **Proved for all inputs, source as repaired, volumes with one level of sub-directories,
-operations addressing the volume directory**: the on-disk invariant `Inv` and the states `SInv` of the disk object between
-two calls; the refinement of `put` (seedling, sapling, tree, sparse), `mkdir`, `delete` (of a file and of a sub-directory),
+it (details: `design/FsProdos.md`).  **Proved for all inputs, source as repaired, volumes with one level of sub-directories**:
+the on-disk invariant `Inv` and the states `SInv` of the disk object between two calls; for paths addressing the volume
+directory the refinement of `put` (seedling, sapling, tree, sparse), `mkdir`, `delete` (of a file and of a sub-directory),
 `rename` (of a file), `lock`, `unlock`, `retype` — every outcome, `Inv` preserved (`prodos_put_refines`,
-`prodos_mkdir_refines`, `prodos_delete_refines`, `prodos_rename_refines`, `prodos_lock_refines_inv`, …);
-`prodos_step_refines`, `prodos_history_refines`; and the C01–C05 / C19 corollaries for the concrete model at the end of the
-file.  **Not proved**: operations on paths into sub-directories, directory growth, `format` for every size.  Older results, kept:
+`prodos_mkdir_refines`, `prodos_delete_refines`, `prodos_rename_refines`, `prodos_lock_refines_inv`, …); for paths `DIR/NAME`
+into a first-level sub-directory the refinement of `delete`, `lock`, `unlock`, `retype` (`prodos_sub_delete_refines`,
+`prodos_sub_lock_refines`, `prodos_sub_unlock_refines`, `prodos_sub_retype_refines`); `prodos_step_refines`,
+`prodos_history_refines` over both kinds of path; and the C01–C05 / C19 corollaries for the concrete model at the end of the
+file.  **Not proved**: `put`, `rename`, `mkdir` on paths into sub-directories, directory growth, `format` for every size.
+Older results, kept:
 
 * **refinement of `lock`, `unlock` and `retype` for files of the volume directory** (`prodos_lock_refines`,
   `prodos_unlock_refines`, `prodos_retype_refines`): if the image reads (total reader `Read.ProdosT.read`) as a well-formed volume `v` and
@@ -460,6 +463,35 @@ theorem prodos_retype_refines_inv {d : Disk} (hs : SInv d) (path nm : Bytes) (ne
     (htb : ∀ t, newType = some t → t < 256) :
     Refines d (Fs.Prodos.retype path newType aux d) (.retype (upper nm)) := retype_refines' hs path nm newType aux hnodes hnm htb
 
+/-- **`lock(DIR/NAME)` refines the abstract `lock`** (C02, C03, C19; file of a first-level sub-directory): from either buffer
+state, every outcome (directory or file not found, invalid name, locked), `Inv` preserved; the abstract path is `DIR/NAME` as the
+reader lists it -/
+theorem prodos_sub_lock_refines {d : Disk} (hs : SInv d) (path dn nm : Bytes)
+    (hnodes : normalizePath (volName (hdrOf d.raw)) path = .ok [volName (hdrOf d.raw), dn, nm]) (hnm : nm ≠ []) :
+    Refines d (Fs.Prodos.lock path d) (.lock (upper dn ++ [47] ++ upper nm)) := lock_sub_refines' hs path dn nm hnodes hnm
+
+/-- **`unlock(DIR/NAME)` refines the abstract `unlock`** (file of a first-level sub-directory) -/
+theorem prodos_sub_unlock_refines {d : Disk} (hs : SInv d) (path dn nm : Bytes)
+    (hnodes : normalizePath (volName (hdrOf d.raw)) path = .ok [volName (hdrOf d.raw), dn, nm]) (hnm : nm ≠ []) :
+    Refines d (Fs.Prodos.unlock path d) (.unlock (upper dn ++ [47] ++ upper nm)) := unlock_sub_refines' hs path dn nm hnodes hnm
+
+/-- **`retype(DIR/NAME, type, aux)` refines the abstract `retype`** (file of a first-level sub-directory), including the
+refused type string / sub-type -/
+theorem prodos_sub_retype_refines {d : Disk} (hs : SInv d) (path dn nm : Bytes) (newType aux : Option Nat)
+    (hnodes : normalizePath (volName (hdrOf d.raw)) path = .ok [volName (hdrOf d.raw), dn, nm]) (hnm : nm ≠ [])
+    (htb : ∀ t, newType = some t → t < 256) :
+    Refines d (Fs.Prodos.retype path newType aux d) (.retype (upper dn ++ [47] ++ upper nm)) :=
+  retype_sub_refines' hs path dn nm newType aux hnodes hnm htb
+
+/-- **`delete(DIR/NAME)` refines the abstract `delete`** (C02–C05, C19; seedling, sapling or tree file of a first-level
+sub-directory): refused — and nothing changed — when the directory or the file is not found, a name is invalid or the file is
+protected; otherwise the file's record is gone, exactly its blocks are free, the directory's record and every other record are
+as before, the directory's file count is lowered; `Inv` preserved -/
+theorem prodos_sub_delete_refines {d : Disk} (hs : SInv d) (path dn nm : Bytes)
+    (hnodes : normalizePath (volName (hdrOf d.raw)) path = .ok [volName (hdrOf d.raw), dn, nm]) (hnm : nm ≠ [])
+    (hnv : NotVol (volName (hdrOf d.raw)) path) :
+    Refines d (delete path repaired d) (.delete (upper dn ++ [47] ++ upper nm)) := delete_sub_refines' hs path dn nm hnodes hnm hnv
+
 /-- **`rename(path, newName)` refines the abstract `rename`** (C02, C03, C05, C19): refused — and nothing changed — for an
 invalid new name (`SYNTAX`), a new name some entry of the volume directory already has (`DUPLICATE FILENAME`), a missing
 source (`PATH NOT FOUND`), a source whose rename bit is clear (`WRITE PROTECTED`); otherwise the record gets the upper-cased
@@ -534,24 +566,26 @@ theorem prodos_fits_is_accepted {d : Disk} (hs : SInv d) (v : Vol) (fsL : List R
       v4.label = v.label ∧ v4.freeUnits.length + blocksNeeded f = v.freeUnits.length :=
   put_ok hs v fsL ch hr ht f time nm pk hnodes hnm hv hnone x hslot hfit
 
-/-- **Refinement, one step** (volume-directory operations `put`, `mkdir`, `delete`, `rename` of a file, `lock`, `unlock`, `retype`) -/
-theorem prodos_step_refines {d : Disk} (hs : SInv d) (op : VOp) (hroot : op.Root (volName (hdrOf d.raw)))
+/-- **Refinement, one step** (volume-directory operations `put`, `mkdir`, `delete`, `rename` of a file, `lock`, `unlock`,
+`retype`; `delete`, `lock`, `unlock`, `retype` of a file of a first-level sub-directory) -/
+theorem prodos_step_refines {d : Disk} (hs : SInv d) (op : VOp) (hroot : op.Ok (volName (hdrOf d.raw)))
     (hren : ∀ p n, op = .rename p n → ∀ f, (volOf d.raw).lookup (nameOf (volName (hdrOf d.raw)) p) = some f → f.isDir = false) :
     SInv (op.exec d).2 ∧
     stepOk prodosParams (volOf d.raw) (op.abs (volName (hdrOf d.raw))) (op.exec d).1 (volOf (op.exec d).2.raw) = true ∧
     volName (hdrOf (op.exec d).2.raw) = volName (hdrOf d.raw) := step_refines hs op hroot hren
 
-/-- **Refinement, histories**: every history of volume-directory operations from an `SInv` state in which `rename` is applied
+/-- **Refinement, histories**: every history of operations on the volume directory and on files of first-level sub-directories
+(`VOp.Ok`) from an `SInv` state in which `rename` is applied
 to files only (`RenFiles`; `renFiles_of_no_rename`) is a valid trace of the abstract specification, ends in an `SInv` state,
 and its final reading is the reading of the final image -/
-theorem prodos_history_refines (ops : List VOp) (d : Disk) (hs : SInv d) (hroot : ∀ op ∈ ops, op.Root (volName (hdrOf d.raw)))
+theorem prodos_history_refines (ops : List VOp) (d : Disk) (hs : SInv d) (hroot : ∀ op ∈ ops, op.Ok (volName (hdrOf d.raw)))
     (hren : RenFiles (volName (hdrOf d.raw)) d ops) :
     validFrom prodosParams (volOf d.raw) (trace (volName (hdrOf d.raw)) d ops) ∧ SInv (finalDisk d ops) ∧
     finalVol (volOf d.raw) (trace (volName (hdrOf d.raw)) d ops) = volOf (finalDisk d ops).raw := history_refines ops d hs hroot hren
 
 /-- C02 for the concrete model: a file that no operation of the history names is found identical (content, length, type,
 flags, blocks) in the reading of the final image -/
-theorem prodos_bystanders_survive (ops : List VOp) (d : Disk) (hs : SInv d) (hroot : ∀ op ∈ ops, op.Root (volName (hdrOf d.raw)))
+theorem prodos_bystanders_survive (ops : List VOp) (d : Disk) (hs : SInv d) (hroot : ∀ op ∈ ops, op.Ok (volName (hdrOf d.raw)))
     (hren : RenFiles (volName (hdrOf d.raw)) d ops) {q : Bytes} {g : FileRec} (hg : (volOf d.raw).lookup q = some g) (hd : g.isDir = false)
     (hq : ∀ op ∈ ops, q ∉ (op.abs (volName (hdrOf d.raw))).targets) :
     (volOf (finalDisk d ops).raw).lookup q = some g := by
@@ -564,14 +598,14 @@ theorem prodos_bystanders_survive (ops : List VOp) (d : Disk) (hs : SInv d) (hro
 
 /-- C03 for the concrete model: the image after **every** step of every history, successful or refused, is read by the
 total reader as a well-formed volume, and satisfies `Inv` at the end -/
-theorem prodos_states_well_formed (ops : List VOp) (d : Disk) (hs : SInv d) (hroot : ∀ op ∈ ops, op.Root (volName (hdrOf d.raw)))
+theorem prodos_states_well_formed (ops : List VOp) (d : Disk) (hs : SInv d) (hroot : ∀ op ∈ ops, op.Ok (volName (hdrOf d.raw)))
     (hren : RenFiles (volName (hdrOf d.raw)) d ops) :
     (∀ s ∈ trace (volName (hdrOf d.raw)) d ops, s.post.wfB = true) ∧ Inv (finalDisk d ops).raw := by
   obtain ⟨hv, hfin, _⟩ := history_refines ops d hs hroot hren
   exact ⟨C03.every_state_well_formed hv, hfin.inv⟩
 
 /-- C04 for the concrete model: after every history `free + owned + system = size` in the reading of the final image -/
-theorem prodos_free_accounting (ops : List VOp) (d : Disk) (hs : SInv d) (hroot : ∀ op ∈ ops, op.Root (volName (hdrOf d.raw)))
+theorem prodos_free_accounting (ops : List VOp) (d : Disk) (hs : SInv d) (hroot : ∀ op ∈ ops, op.Ok (volName (hdrOf d.raw)))
     (hren : RenFiles (volName (hdrOf d.raw)) d ops) :
     (volOf (finalDisk d ops).raw).free + (volOf (finalDisk d ops).raw).allOwned.length + (volOf (finalDisk d ops).raw).sys.length =
       (volOf (finalDisk d ops).raw).hi - (volOf (finalDisk d ops).raw).lo := by
@@ -592,7 +626,7 @@ theorem prodos_free_accounting (ops : List VOp) (d : Disk) (hs : SInv d) (hroot 
 
 /-- C05 for the concrete model: the names the reader lists after a history are the fold of the history over the initial
 listing, and they are pairwise different -/
-theorem prodos_listing_is_history_fold (ops : List VOp) (d : Disk) (hs : SInv d) (hroot : ∀ op ∈ ops, op.Root (volName (hdrOf d.raw)))
+theorem prodos_listing_is_history_fold (ops : List VOp) (d : Disk) (hs : SInv d) (hroot : ∀ op ∈ ops, op.Ok (volName (hdrOf d.raw)))
     (hren : RenFiles (volName (hdrOf d.raw)) d ops) (q : Bytes) :
     (q ∈ (volOf (finalDisk d ops).raw).paths ↔ q ∈ foldPaths (volOf d.raw).paths (trace (volName (hdrOf d.raw)) d ops)) ∧
     (volOf (finalDisk d ops).raw).paths.Nodup := by
@@ -604,7 +638,7 @@ theorem prodos_listing_is_history_fold (ops : List VOp) (d : Disk) (hs : SInv d)
 
 /-- C19 for the concrete model: a protected file survives every history in which nobody locks, unlocks or retypes it —
 identical content, length, type, flags and blocks at the end — and every delete or rename attempted on it was refused -/
-theorem prodos_locked_file_survives (ops : List VOp) (d : Disk) (hs : SInv d) (hroot : ∀ op ∈ ops, op.Root (volName (hdrOf d.raw)))
+theorem prodos_locked_file_survives (ops : List VOp) (d : Disk) (hs : SInv d) (hroot : ∀ op ∈ ops, op.Ok (volName (hdrOf d.raw)))
     (hren : RenFiles (volName (hdrOf d.raw)) d ops) {q : Bytes} {g : FileRec} (hg : (volOf d.raw).lookup q = some g) (hl : g.locked = true) (hd : g.isDir = false)
     (hop : ∀ op ∈ ops, op.abs (volName (hdrOf d.raw)) ≠ .lock q ∧ op.abs (volName (hdrOf d.raw)) ≠ .unlock q ∧
       op.abs (volName (hdrOf d.raw)) ≠ .retype q) :
@@ -626,7 +660,7 @@ theorem prodos_locked_file_survives (ops : List VOp) (d : Disk) (hs : SInv d) (h
 /-- C01 for the concrete model: a file stored by an accepted `put` is read back — chunk for chunk, with its length, type
 and auxiliary type — from the image at the end of **any** history of volume-directory operations that do not name it -/
 theorem prodos_get_returns_last_put (f : FImg) (t : Bytes) (ops : List VOp) (d : Disk) (hs : SInv d)
-    (hroot : ∀ op ∈ VOp.put f t :: ops, op.Root (volName (hdrOf d.raw)))
+    (hroot : ∀ op ∈ VOp.put f t :: ops, op.Ok (volName (hdrOf d.raw)))
     (hren : RenFiles (volName (hdrOf d.raw)) d (VOp.put f t :: ops))
     (hok : ((VOp.put f t).exec d).1 = true)
     (hq : ∀ op ∈ ops, nameOf (volName (hdrOf d.raw)) f.fullPath ∉ (op.abs (volName (hdrOf d.raw))).targets) :
